@@ -5,6 +5,7 @@ import (
 	"context"
 	"encoding/json"
 	"fmt"
+	"github.com/notaryproject/notation-go/log"
 	"math/rand/v2"
 	"sort"
 	"strings"
@@ -296,6 +297,11 @@ func (l c18) Exec(env *core.Env) *core.Result {
 		t := t
 		sim.Go("signer", func() {
 			ctx := context.Background()
+			if p.W("tasks") > 1 {
+				// several signing hosts in one process: the caller's logger is a scheduling point, so that what one
+				// call does between two log lines of the other matters
+				ctx = log.WithLogger(ctx, yieldLogger{})
+			}
 			var longLived *signer.PluginSigner
 			for oi, op := range p.Ops {
 				if op.Task != t {
